@@ -10,6 +10,7 @@ import AcryoVerif.Model.Fsc
 import AcryoVerif.Model.Bin
 import AcryoVerif.Model.Table
 import AcryoVerif.Model.Frame
+import AcryoVerif.Model.Pose
 
 /-! Dispatch of hand-written model operations for the line-protocol driver. -/
 namespace Model
@@ -219,6 +220,28 @@ def opFrame (a : Array Rat) : String :=
     | .error e => "err:" ++ toString e
     | .ok (_, fs) => ",".intercalate (df.map (·.1)) ++ " | " ++ ",".intercalate (fs.map (·.1))
 
+def v3At (a : Array Rat) (k : Nat) : V3 := ⟨a[k]!, a[k+1]!, a[k+2]!⟩
+def m3At (a : Array Rat) (k : Nat) : M3 := ⟨v3At a k, v3At a (k+3), v3At a (k+6)⟩
+def showPose (m : Pose) : String :=
+  " ".intercalate ([m.p.z, m.p.y, m.p.x, m.R.r0.z, m.R.r0.y, m.R.r0.x, m.R.r1.z, m.R.r1.y, m.R.r1.x,
+    m.R.r2.z, m.R.r2.y, m.R.r2.x].map Canon.canon)
+
+/-- `pose kind p(3) R(9) v(3) Q(9) scale`: kind 0 = translate_internal v, 1 = rotate_by_rotvec_internal Q,
+2 = linear_transform(v, Q), 3 = _post_align at `scale` with pixel shift v and rotation Q,
+4 = rotate_by Q (world), 5 = translate v (world) -/
+def opPose (a : Array Rat) : String :=
+  let m : Pose := ⟨v3At a 1, m3At a 4⟩
+  let v := v3At a 13
+  let Q := m3At a 16
+  let r := match (i a 0) with
+    | 0 => m.translateInternal v
+    | 1 => m.rotateInternal Q
+    | 2 => m.linearTransform v Q
+    | 3 => Pose.postAlign a[25]! m v Q
+    | 4 => m.rotateBy Q
+    | _ => m.translate v
+  showPose r
+
 def dispatch (name : String) (a : Array Rat) : Option String :=
   match name with
   | "prepAffine" => some (flat (opPrepAffine a))
@@ -247,6 +270,7 @@ def dispatch (name : String) (a : Array Rat) : Option String :=
   | "bin" => some (opBin a)
   | "table" => some (opTable a)
   | "frame" => some (opFrame a)
+  | "pose" => some (opPose a)
   | _ => none
 
 end Model
